@@ -80,10 +80,9 @@ def _check_leaf_identities(rec, e, values, result, other, cexs, k):
         entry = x
         break
     if entry is None:
-      r, m, _ = e.prove(z3.BoolVal(False))
-      rec.violation('rsa_util.BatchGCD', 'result_origin',
-                    'result[%d] is not the output of a gcd call' % i,
-                    inputs_of(e, m) if m is not None else {}, {}, False)
+      # e.g. a constant: cannot be the gcd with the other values in general;
+      # confirmed (or not) by the stage-2 concrete search
+      cexs.append(('result_origin', dict(k=k, leaf=i)))
       continue
     a, rem = T(entry[1]), T(entry[2])
     others = [u for u in uniq if not u.eq(a)]
